@@ -45,3 +45,29 @@ package term
 //   the cursor column never passes the right edge, whatever rune is written
 //@   ensures 0 <= bb.Col && bb.Col <= bb.Width && len(bb.Lines) >= 1
 //@   ensures bb.Width == old(bb.Width) && bb.Indent == old(bb.Indent)
+
+// ---------------------------------------------------------------------------
+// C31: terminal input decoding (harness verifReadRune in zz_verif_harness.go
+// runs the real readRune over a four-byte reader; readRune is inlined and its
+// continuation loop unrolled completely).
+
+//@ func readRune
+//@   inline
+//@   loop 1 unroll 3
+//@ func verifBytes.ReadByteWithTimeout
+//@   inline
+
+//@ spec fn cont(b byte) bool = 128 <= b && b <= 191
+
+//@ func verifReadRune
+//@   props C31
+//@   requires 0 <= n && n <= 4
+//   every well-formed UTF-8 sequence is decoded to its code point and exactly its bytes are consumed
+//@   ensures [ascii] n >= 1 && b0 < 128 ==> err == nil && r == b0 && consumed == 1
+//@   ensures [two-bytes] n >= 2 && 192 <= b0 && b0 <= 223 && cont(b1) ==> err == nil && consumed == 2 && r == (b0 - 192) * 64 + (b1 - 128)
+//@   ensures [three-bytes] n >= 3 && 224 <= b0 && b0 <= 239 && cont(b1) && cont(b2) ==> err == nil && consumed == 3 && r == (b0 - 224) * 4096 + (b1 - 128) * 64 + (b2 - 128)
+//@   ensures [four-bytes] n == 4 && 240 <= b0 && b0 <= 247 && cont(b1) && cont(b2) && cont(b3) ==> err == nil && consumed == 4 && r == (b0 - 240) * 262144 + (b1 - 128) * 4096 + (b2 - 128) * 64 + (b3 - 128)
+//   a sequence cut short by a timeout yields an error (and U+FFFD), never a wait without timeout
+//@   ensures [truncated] n >= 1 && b0 >= 192 && b0 <= 247 && n < (b0 < 224 ? 2 : (b0 < 240 ? 3 : 4)) ==> err != nil && r == 65533
+//@   ensures [no-unbounded-wait-inside-a-sequence] !blocking
+//@   ensures [never-reads-more-than-needed] consumed <= n && consumed <= 4
